@@ -935,6 +935,26 @@ def TT.resolveAndApply (fl : Flags) (tt : TT) : Outcome :=
   | .malformed _ => .raised .malformed tt.baseDisk
   | .crashed e => .raised e tt.baseDisk
 
+/-- `tt.apply()` when the file system fails during the removal / insertion phases (an `OSError`
+out of an `os.rename` of the `_FileMover`, or any `BaseException` raised there).  The checks made
+before the mover phases come first; then `apply` runs `mover.rollback()` and re-raises, and the
+metadata update is never reached.  That `rollback` restores names, kinds, contents and — the mode
+changes of `_set_executability` being journalled — executable bits, i.e. that the disk left behind
+is `d0`, is property C13 (`rollback_restores`); here it is the definition, compared on every run
+with real applies in which every `os.rename` in turn fails. -/
+def TT.applyFaulted (fl : Flags) (tt : TT) (d0 : Disk) : Outcome :=
+  if !(tt.findRawConflicts fl).isEmpty then .raised .malformed d0
+  else match (if fl.git then .ok [] else tt.generateDelta fl) with
+    | .error e => .raised e d0
+    | .ok _ => .raised .renameFailed d0
+
+/-- `resolve_conflicts(tt); tt.apply()` with a failing file system -/
+def TT.resolveAndApplyFaulted (fl : Flags) (tt : TT) : Outcome :=
+  match tt.resolveConflicts fl with
+  | .clean tt' => tt'.applyFaulted fl tt.baseDisk
+  | .malformed _ => .raised .malformed tt.baseDisk
+  | .crashed e => .raised e tt.baseDisk
+
 def Outcome.disk : Outcome → Disk
   | .applied _ d => d
   | .raised _ d => d
